@@ -435,12 +435,40 @@ Lemma pseudo_sim c mkout st fs p :
   R st fs -> frames_ok fs -> fs <> [] ->
   sim (length fs) (pseudo_to_box c mkout st p) (s_pseudo c mkout fs p).
 Proof.
-  intros HR Hok Hne. destruct p as [[props content]|]; cbn [pseudo_to_box s_pseudo].
+  intros HR Hok Hne. destruct p as [[props mk content]|]; cbn [pseudo_to_box s_pseudo].
   - destruct (update_counters_R st fs props HR Hne) as (st' & E & HR' & Hlen). rewrite E. cbn [bind].
+    assert (Hm : (if cp_list_item props then marker_text c (st_values st') mk else Ok []) =
+                 (if cp_list_item props then s_marker c (s_update fs props) mk else Ok [])).
+    { destruct (cp_list_item props); [apply marker_text_R; assumption|reflexivity]. }
+    rewrite Hm. destruct (if cp_list_item props then s_marker c (s_update fs props) mk else Ok []) as [m| |]; cbn [bind sim]; auto.
     rewrite (content_text_R c st' _ content HR').
     destruct (s_content c (s_update fs props) content); cbn [bind sim]; auto.
     split; [reflexivity|]. split; [assumption|]. split; [apply s_update_ok; assumption|assumption].
   - cbn [sim]. auto.
+Qed.
+
+(* a ::before / ::after with display: list-item and a counter-style marker:
+   the model generates exactly the marker text and the content text, both
+   computed on the instances as they are AFTER the pseudo-element's own
+   counter-reset / -set / -increment (implicit list-item increment included) *)
+Definition innermost (fs : frames) (n : str) : Z :=
+  match instances fs n with [] => 0 | l => last l 0 end.
+
+Lemma pseudo_list_item_marker c mkout st fs props sid content st' out :
+  R st fs -> frames_ok fs -> fs <> [] -> cp_list_item props = true ->
+  pseudo_to_box c mkout st (Some (Pseudo props (MkNormal sid) content)) = Ok (st', out) ->
+  exists m s, out = [OMarker m; mkout s]
+              /\ RenderMarker c sid (innermost (s_update fs props) s_list_item) = Ok m
+              /\ s_content c (s_update fs props) content = Ok s
+              /\ R st' (s_update fs props).
+Proof.
+  intros HR Hok Hne Hli E.
+  pose proof (pseudo_sim c mkout st fs (Some (Pseudo props (MkNormal sid) content)) HR Hok Hne) as H.
+  rewrite E in H. cbn [s_pseudo] in H. rewrite Hli in H. cbn [s_marker] in H.
+  fold (innermost (s_update fs props) s_list_item) in H.
+  destruct (RenderMarker c sid (innermost (s_update fs props) s_list_item)) as [m| |]; cbn [bind sim] in H; try contradiction.
+  destruct (s_content c (s_update fs props) content) as [s| |]; cbn [bind sim] in H; try contradiction.
+  destruct H as (-> & HR' & _). exists m, s. cbn [app]. auto.
 Qed.
 
 Section ElemInd.
